@@ -257,7 +257,67 @@ let handle_xml op args =
      | XErr e -> "err " ^ str_xerr e
      | XOk evs -> xres (fun h' -> sx_str (sx_header h') ^ " norm=" ^ string_of_bool (h' = norm h)) (x_parse evs))
   | _ -> "err driver:badop"
+
+(* ---------------------------------------------------------------- axes <-> MatrixIndicesMap (ModelJoin.v)
+   content tables filled by `tbl` lines that precede the cases (the harness's interning, both ways):
+     tbl n <id> <str>   map name          tbl m <id> <meta sexp>   metadata dict (insertion order)
+     tbl l <id> <table sexp>  label table  tbl v <id> <vox sexp>    parcel voxel table
+     tbl f <id> 0u<bits>      series value (float)
+   jenc <axis tokens>  ->  (I (0) type series (children))   = extracted xenc
+   jdec <mim sexp>     ->  axis tokens                      = extracted xdec (dims ignored) *)
+let t_name : (int, z list) Hashtbl.t = Hashtbl.create 64
+let t_meta : (int, (z list * z list) list) Hashtbl.t = Hashtbl.create 64
+let t_label : (int, xlabel list) Hashtbl.t = Hashtbl.create 64
+let t_vox : (int, ((z * z) * z) list) Hashtbl.t = Hashtbl.create 64
+let r_name : (string, int) Hashtbl.t = Hashtbl.create 64
+let r_meta : (string, int) Hashtbl.t = Hashtbl.create 64
+let r_label : (string, int) Hashtbl.t = Hashtbl.create 64
+let r_vox : (string, int) Hashtbl.t = Hashtbl.create 64
+let find_or tbl k d = try Hashtbl.find tbl k with Not_found -> d
+let name_str (i : z) = find_or t_name (int_of_z i) []
+let meta_c (i : z) = find_or t_meta (int_of_z i) []
+let label_c (i : z) = find_or t_label (int_of_z i) []
+let vox_c (i : z) = find_or t_vox (int_of_z i) []
+let none_str = cps "None"
+let name_id (o : z list option) = z_of_int (find_or r_name (sx_str (sx_of_str (match o with Some t -> t | None -> none_str))) (-1))
+let meta_id m = z_of_int (find_or r_meta (sx_str (sx_meta m)) (-1))
+let label_id t = z_of_int (find_or r_label (sx_str (sx_table t)) (-1))
+let vox_id v = z_of_int (find_or r_vox (sx_str (sx_vox v)) (-1))
+(* tbl f <id> <IEEE-754 bits of the float, decimal, 0u-prefixed>: series values; scale10 v e = v * 10 ** e
+   computed the way Python does (10 ** e is an exact integer for e >= 0, a float for e < 0) *)
+let t_float : (int, float) Hashtbl.t = Hashtbl.create 64
+let r_float : (string, int) Hashtbl.t = Hashtbl.create 64
+let fkey (x : float) = Printf.sprintf "%Lu" (Int64.bits_of_float (if x = 0.0 then 0.0 else x))
+let scale10 (v : z) (e : z) : z =
+  match Hashtbl.find_opt t_float (int_of_z v) with
+  | None -> z_of_int (-1)
+  | Some x -> let r = x *. (10.0 ** float_of_int (int_of_z e)) in z_of_int (find_or r_float (fkey r) (-1))
+let handle_join op args =
+  match op, args with
+  | "tbl", kind :: id :: rest ->
+    let i = int_of_string id and x = sx_of_string (String.concat " " rest) in
+    (match kind with
+     | "n" -> let c = str_of x in Hashtbl.replace t_name i c; Hashtbl.replace r_name (sx_str (sx_of_str c)) i
+     | "m" -> let c = meta_of x in Hashtbl.replace t_meta i c; Hashtbl.replace r_meta (sx_str (sx_meta c)) i
+     | "l" -> let c = table_of x in Hashtbl.replace t_label i c; Hashtbl.replace r_label (sx_str (sx_table c)) i
+     | "v" -> let c = vox_of x in Hashtbl.replace t_vox i c; Hashtbl.replace r_vox (sx_str (sx_vox c)) i
+     | "f" -> let f = Int64.float_of_bits (Int64.of_string (match x with A a -> a | _ -> failwith "float")) in
+              Hashtbl.replace t_float i f; Hashtbl.replace r_float (fkey f) i
+     | _ -> failwith "tbl kind");
+    "ok"
+  | "jenc", l ->
+    let (a, _) = parse_axis l in
+    (match xenc name_str meta_c label_c vox_c a with
+     | Err e -> "err " ^ str_err e
+     | Ok ((ty, ser), ch) -> "ok " ^ sx_str (sx_mim { xm_dims = [z_of_int 0]; xm_type = ty; xm_series = ser; xm_children = ch }))
+  | "jdec", l ->
+    let m = mim_of (sx_of_string (String.concat " " l)) in
+    (match xdec name_id meta_id label_id vox_id scale10 ((m.xm_type, m.xm_series), m.xm_children) with
+     | Err e -> "err " ^ str_err e
+     | Ok a -> "ok " ^ str_axis a)
+  | _ -> "err driver:badop"
 let handle op args = match op, args with
+  | ("tbl" | "jenc" | "jdec"), _ -> handle_join op args
   | ("xwrite" | "xparse" | "xnorm" | "xrt"), _ -> handle_xml op args
   | "resolve", [n; ix] -> res string_of_zlist (resolve (z_of_string n) (parse_idx ix))
   | "ser_time", a -> "ok " ^ string_of_zlist (ser_time (parse_ser a))
